@@ -3,6 +3,7 @@ import theta_rules as T
 import chains
 import hll_rules
 import generic_lints
+import triggers
 
 
 def run(facts, tier):
@@ -17,6 +18,7 @@ def run(facts, tier):
         ("rebuild precondition", T.rebuild_precondition, 2, "rebuild() is only called with strictly more than nominal-size entries"),
         ("builder/reset", T.builder_reset, 2, "reset() restores theta through the builder's helper; re-reads follow member resets"),
         ("duplicate operands", lambda fa: generic_lints.duplicate_conjuncts(fa, ('theta/',)), 2, "no logical chain tests the same operand twice (copy-paste of the wrong peer)"),
+        ("structural triggers", lambda fa: triggers.obligations(fa, ['theta_update_sketch_base']), 3, "the comparisons that decide when to resize / rebuild / compact / purge / promote keep their reviewed boundary (operator and constants)"),
     ):
         o = f(facts)
         obs += o
